@@ -86,7 +86,8 @@ class ApplyDelayZoh(Unit):
 DistAlgebra.replay = lambda self, label, clause, probes, model: {"kind": "pure", "which": "trainable_dist", "probes": probes}
 
 
-UNITS = [DistAlgebra(), ApplyDelayZoh()]
+from .c12 import MinimalDelaySubstitution
+UNITS = [DistAlgebra(), ApplyDelayZoh(), MinimalDelaySubstitution()]
 EXTRA = dict(assumptions=["the coverage lemma 'every generated / recorded graph satisfies the extended-window precondition' needs sender sends >= 1/rate apart; it is NOT proved here (DESIGN 6/C10: refuted for jittery computation delays - recorded as an observation, see DESIGN 7)",
                           "make_update_inputs keeps the previous delay distribution (proved under C08's _update_inputs unit)"])
 
